@@ -97,6 +97,10 @@ def _short(x):
     x = x.strip().lstrip("&").strip()
     if x.startswith("mut "):
         x = x[4:]
+    m = re.match(r"^<.* as .*>::([A-Za-z_][A-Za-z0-9_]*)", x)
+    if m:
+        # a trait method, `<app::p9::T2 as app::p9::MkC2>::c2` -> `c2` (the generators emit trait-method constructors)
+        return m.group(1)
     x = re.sub(r"<.*$", "", x) if not x.startswith("pavex::request::path::PathParams") else x
     return x.split("::")[-1] if "<" not in x else x
 
